@@ -439,7 +439,7 @@ CHECK = {
                 "assignment and the scalar coefficients give a 6x6 local J equal to pose_J in all 36 entries, the returned position = l*p + t, the "
                 "matrix handed to rotation3DToEulerAngles = l*S (S through the inlined delegating constructor), the returned orientation = the C10 "
                 "unit's generated term applied to it, and the returned covariance = J*C*J^T (C12_source_tie_pose_jacobian, "
-                "C12_source_tie_pose_mean); composed with the Jacobian theorem: the generated 6x6 matrix is the Jacobian of the generated mean map "
+                "C12_source_tie_pose_mean; the covariance lemma follows whatever chain of 6x6 expressions the source uses, e.g. through a local J*C); composed with the Jacobian theorem: the generated 6x6 matrix is the Jacobian of the generated mean map "
                 "(C12_source_pose_jacobian_is_derivative). The lemmas survive renaming / hoisting / re-association / statement reordering and break "
                 "on a changed sign, index, factor order, dropped transpose or initial value.  "
                 "Coq (Coquelicot is_derive): the entry-wise derivatives of Rz*Ry*Rx in each angle (dR_true) and of R*T; the faithful model of "
